@@ -291,6 +291,20 @@ thread_local! {
     static HINT_BREACH: std::cell::RefCell<Option<String>> = std::cell::RefCell::new(None);
     /// An unbounded internal-iteration consumer met a stream that did not end (see UNBOUNDED_LIMIT).
     static UNBOUNDED_ABORT: std::cell::Cell<bool> = std::cell::Cell::new(false);
+    /// reach counters of the current run: [colour streams consumed by k x next + for_each, pixel
+    /// streams consumed by for_each, streams whose size_hint was compared with an observed end]
+    static REACH: std::cell::Cell<[u32; 3]> = std::cell::Cell::new([0; 3]);
+}
+
+pub fn reach(i: usize) {
+    REACH.with(|r| {
+        let mut v = r.get();
+        v[i] = v[i].saturating_add(1);
+        r.set(v);
+    });
+}
+pub fn take_reach() -> [u32; 3] {
+    REACH.with(|r| r.replace([0; 3]))
 }
 
 /// Colours beyond the area's `w*h` after which an unbounded `for_each` consumer gives up (by unwinding).
@@ -313,6 +327,9 @@ pub fn abort_unbounded() -> ! {
 /// was seen to end, it yielded at most `ended_max` in total.
 pub fn note_hint(what: &str, hint: (usize, Option<usize>), min_total: u64, ended_max: Option<u64>) {
     let (lo, hi) = hint;
+    if ended_max.is_some() && (lo > 0 || hi.is_some()) {
+        reach(2);
+    }
     let msg = match (hi, ended_max) {
         (Some(h), _) if min_total > h as u64 => format!(
             "{}: size_hint() was ({}, Some({})) but the stream then yielded at least {} item(s); a consumer that stops at the announced upper bound loses the rest",
@@ -776,6 +793,7 @@ impl<C: SimColor> SimDisplay<C> {
         let hint = pixels.size_hint();
         if matches!(st.disc, Discipline::DrainBounded | Discipline::SkipHidden) && !fault_here && !st.budget_exceeded {
             let mut count = 0u64;
+            reach(1);
             pixels.for_each(|Pixel(p, c)| {
                 let c = c.to_u32();
                 count += 1;
@@ -914,6 +932,7 @@ impl<C: SimColor> SimDisplay<C> {
                 }
             }
             if !ended {
+                reach(0);
                 colors.for_each(|c| {
                     if pulled > n + UNBOUNDED_LIMIT {
                         abort_unbounded();
